@@ -62,7 +62,16 @@ func verifC16Attrs() {
 	if nAck <= 4 {
 		verifReach("acks-ok")
 		verifAssert(ackErr == nil, "up-to-four-acks-encode")
+		// decoding yields the message's values whatever the receiver held
+		// before (a receiver kept from the previous message)
 		var a2 DtlsInStunAckAttribute
+		if verifChoice(2) == 1 {
+			verifReach("used-receiver")
+			a2 = make(DtlsInStunAckAttribute, 1+verifChoice(2), 4)
+			for i := range a2 {
+				a2[i] = verifU32()
+			}
+		}
 		ok := a2.GetFrom(m) == nil && len(a2) == nAck
 		verifAssert(ok, "ACK-count-round-trips")
 		if ok {
@@ -75,6 +84,9 @@ func verifC16Attrs() {
 		verifAssert(ackErr != nil, "more-than-four-acks-rejected")
 	}
 	var pl DtlsInStunAttribute
+	if verifChoice(2) == 1 {
+		pl = DtlsInStunAttribute(verifBytes(2)) // a used receiver
+	}
 	verifAssert(pl.GetFrom(m) == nil && verifBytesEq(pl, payload), "DTLS-in-STUN-payload-round-trips")
 	verifReach("done")
 }
